@@ -266,7 +266,9 @@ impl<C: Debug + Clone + Serialize + DeserializeOwned + 'static> Sub for PropSub<
         let rng = TestRng::from_seed(RngAlgorithm::ChaCha, &ctx.sub_seed(self.name));
         let mut runner = TestRunner::new_with_rng(config, rng);
         let strat = (self.strategy)(ctx);
-        let cell = RefCell::new((rep, false));
+        // (report, failed already, the last cases before and including the first
+        // failure, message of the first failure)
+        let cell = RefCell::new((rep, false, std::collections::VecDeque::<C>::new(), String::new()));
         let eval = self.eval;
         let result = runner.run(&strat, |case| {
             let mut obs = Obs::new();
@@ -276,31 +278,39 @@ impl<C: Debug + Clone + Serialize + DeserializeOwned + 'static> Sub for PropSub<
             // first failure.
             if !g.1 {
                 g.0.absorb(obs);
+                if g.2.len() == 8 {
+                    g.2.pop_front();
+                }
+                g.2.push_back(case.clone());
             }
             match r {
                 Ok(()) => Ok(()),
                 Err(m) => {
+                    if !g.1 {
+                        g.3 = m.clone();
+                    }
                     g.1 = true;
                     Err(TestCaseError::fail(m))
                 }
             }
         });
-        let (mut rep, _) = cell.into_inner();
+        let (mut rep, _, recent, first_msg) = cell.into_inner();
         match result {
             Ok(()) => {}
             Err(TestError::Fail(_reason, minimal)) => {
                 // Message of the *shrunk* case.
                 let mut obs = Obs::new();
-                let msg = match eval(&minimal, &mut obs) {
-                    Err(m) => m,
-                    Ok(()) => "failure did not reproduce on the shrunk case (flaky?)".into(),
+                let (msg, case) = match eval(&minimal, &mut obs) {
+                    Err(m) => (m, serde_json::to_value(&minimal).unwrap()),
+                    // The same case passes when it is run again on its own: the
+                    // outcome depended on what was run before it. Keep the cases
+                    // that led up to the first failure as the replay.
+                    Ok(()) => (
+                        format!("{first_msg} [this failure did not reproduce when the case was run again alone: the outcome depends on earlier calls - state kept inside the library between calls?]"),
+                        json!({"__history": recent.iter().map(|c| serde_json::to_value(c).unwrap()).collect::<Vec<_>>()}),
+                    ),
                 };
-                rep.violations.push(Violation {
-                    sub: self.name.into(),
-                    profile: profile_name().into(),
-                    message: msg,
-                    case: serde_json::to_value(&minimal).unwrap(),
-                });
+                rep.violations.push(Violation { sub: self.name.into(), profile: profile_name().into(), message: msg, case });
             }
             Err(TestError::Abort(reason)) => {
                 rep.inconclusive.push(format!("proptest aborted: {reason}"));
@@ -309,6 +319,13 @@ impl<C: Debug + Clone + Serialize + DeserializeOwned + 'static> Sub for PropSub<
         rep
     }
     fn replay(&self, case: &Value) -> Result<(), String> {
+        if let Some(h) = case.get("__history").and_then(|h| h.as_array()) {
+            // cases that led up to an order-dependent failure: run them in order
+            for c in h {
+                self.replay(c)?;
+            }
+            return Ok(());
+        }
         let c: C = serde_json::from_value(case.clone()).map_err(|e| format!("replay file does not decode: {e}"))?;
         let mut obs = Obs::new();
         let r = (self.eval)(&c, &mut obs);
